@@ -24,6 +24,10 @@ BYTE_TO_QUOTED = {v: "%" + k.decode().upper() for k, v in HEX_TO_BYTE.items()}
 ASCII_RE = re.compile("([\x00-\x7f]+)")
 C1_CONTROL_CHARS_RE = re.compile("[\x80-\x9f]")
 WHITESPACE_RE = re.compile(r"\s", re.UNICODE)
+NFKC_DELIMITER_CHARS_RE = re.compile(
+    "[\u2047-\u2049\u2100\u2101\u2105\u2106\u2a74\ufe13\ufe16"
+    "\ufe55\ufe56\ufe5f\ufe6b\uff03\uff0f\uff1a\uff1f\uff20]"
+)
 
 
 # NOTE: only used on ascii strings, where a non-ascii byte can only come from
@@ -122,9 +126,16 @@ UNSAFE_FOR_QUERY_ITEM = b" &=#%"
 UNSAFE_FOR_FRAGMENT = b" %"
 
 # NOTE: those method should only be used on parsed urls to canonicalize/normalize.
-safely_unquote_auth_item = partial(
-    unquote, only_printable=True, normalize_space=True, unsafe=UNSAFE_FOR_AUTH_ITEM
-)
+def safely_unquote_auth_item(string):
+    string = unquote(
+        string, only_printable=True, normalize_space=True, unsafe=UNSAFE_FOR_AUTH_ITEM
+    )
+
+    # NOTE: url parsers refuse a netloc holding a character whose NFKC form
+    # contains a delimiter (e.g. the fullwidth '@'), so those must remain escaped
+    return NFKC_DELIMITER_CHARS_RE.sub(quote_match, string)
+
+
 safely_unquote_path = partial(
     unquote, only_printable=True, normalize_space=True, unsafe=UNSAFE_FOR_PATH
 )
